@@ -19,8 +19,9 @@ def main():
     ap.add_argument("--jobs", type=int, default=2)
     ap.add_argument("--nosuite", action="store_true")
     ap.add_argument("--out", default=os.path.join(V, "selftest", "PRESERVING_RESULTS.json"))
+    ap.add_argument("--file", default=os.path.join(V, "selftest", "preserving.json"))
     a = ap.parse_args()
-    edits = json.load(open(os.path.join(V, "selftest", "preserving.json")))
+    edits = json.load(open(a.file))
     ids = set(filter(None, a.ids.split(",")))
     props = set(filter(None, a.props.split(",")))
     rows = []
